@@ -52,6 +52,14 @@ Theorem C07_harvest_le_crop_n : forall h : harvest_in (T:=R),
   0 <= ho_pesum o.
 Proof. exact harvest_le_crop_n. Qed.
 
+(* the simulated dressing of the fertiliser prognosis (dung.go, fertiliser demand not covered by the supply, capped at
+   200 mg N/l in the top layer): the booked amount is >= 0 and the top layer gains exactly it, for EVERY input — the
+   dressing never takes mineral N out of the soil and never books a negative fertiliser amount *)
+Theorem C07_prognosis_dressing_nonneg : forall c10 dtgesn angebot wg0 dz : R,
+  let '(c1', bed) := @prog_dress R RNum c10 dtgesn angebot wg0 dz in
+  0 <= bed /\ c1' = c10 + bed.
+Proof. exact prog_dress_nonneg. Qed.
+
 (* non-vacuity: the winter-wheat row of the shipped table, residues stay, three rooted layers: every hypothesis
    holds and the above-ground residue is positive *)
 Example C07_harvest_nonvacuous :
@@ -64,3 +72,4 @@ Print Assumptions C07_residue_parts.
 Print Assumptions C07_residues_le_crop_n.
 Print Assumptions C07_harvest_books.
 Print Assumptions C07_harvest_le_crop_n.
+Print Assumptions C07_prognosis_dressing_nonneg.
